@@ -343,3 +343,166 @@ CHECKS = {
     'C04': lambda tier, seed: run_disk('C04', tier, seed),
     'C05': lambda tier, seed: run_disk('C05', tier, seed),
 }
+
+
+# =============================================================================================
+# C12: fail the k-th intercepted system call for every k
+# =============================================================================================
+ENOSPC, EIO = 28, 5
+
+
+def marks_of(journal):
+    out = []
+    for o in di.parse_journal(journal):
+        if o.kind == 'mark':
+            out.append(o.text)
+    return out
+
+
+def fault_run(exe, wseed, bits, nb, endmode, k, persist, err, mask=255):
+    """One faulted execution + recovery of the directory it left behind. Returns (events, meta) or a failure description."""
+    env = dict(FAULT_K=k, FAULT_PERSIST=persist, FAULT_ERRNO=err, FAULT_MASK=mask)
+    d = c.scratch('flt')
+    j = os.path.join(d, 'journal')
+    dbdir = os.path.join(d, 'db')
+    p = c.sh([exe, 'record', str(wseed), dbdir, j, str(bits), str(nb), str(endmode)], timeout=90, env=env)
+    info = dict(k=k, persist=persist, errno=err, endmode=endmode)
+    if getattr(p, 'timed_out', False):
+        c.rmtree(d); return dict(fail='hang', info=info)
+    if p.returncode not in (0, 3):
+        c.rmtree(d); return dict(fail='crash rc=%s %s' % (p.returncode, (p.stderr or '')[-200:]), info=info)
+    evs = [dict(e='Reset', **info)]
+    batches = {}
+    fired = False
+    for text in marks_of(j):
+        w = text.split(' ')
+        if w[0] == 'begin':
+            b = int(w[1]); batches[b] = dict(sync=int(w[2]), ops=parse_ops_desc(w[3] if len(w) > 3 else '')); evs.append(dict(e='begin', b=b))
+        elif w[0] == 'ack':
+            evs.append(dict(e='ack', b=int(w[1]), sync=int(w[2]), rc=int(w[3])))
+        elif w[0] == 'fault':
+            fired = True; evs.append(dict(e='fault', count=int(w[1]), desc=' '.join(w[2:])))
+        elif w[0] == 'read':
+            evs.append(dict(e='read', k=int(w[1][1:]), rc=int(w[2]), v=int(w[3])))
+        else:
+            evs.append(dict(e='note', text=text))
+    if p.returncode == 3:
+        # the initial open failed because the fault hit it: nothing was acknowledged; the directory must still open afterwards
+        pass
+    out = os.path.join(d, 'out.json')
+    p2 = c.sh([exe, 'recover', dbdir, out, str(bits), '0'], timeout=RECOVER_TIMEOUT)
+    if getattr(p2, 'timed_out', False):
+        c.rmtree(d); return dict(fail='recover hang', info=info)
+    try:
+        res = json.load(open(out))
+    except Exception:
+        c.rmtree(d); return dict(fail='recover crashed rc=%s' % p2.returncode, info=info)
+    evs.append(norm_result(res, 'afterfault', 'max', 0, 'k=%s' % k))
+    c.rmtree(d)
+    return dict(events=evs, batches=batches, fired=fired, info=info)
+
+
+def run_fault(tier, seed):
+    prop = 'C12'
+    t0 = time.time()
+    out = Outcome(prop)
+    lib = c.build_lib(); exe = c.build_driver('crash', lib)
+    total = dict(workloads=0, sites=0, runs=0, fired=0, tv_states=0, tv_transitions=0)
+    samples = []
+    wls = [(seed * 1000 + 7, 0x000, 22), (seed * 1000 + 8, 0x800, 22)] if tier == 'quick' else \
+          [(seed * 1000 + i, b, 40) for i, b in enumerate([0x000, 0x800, 0x102, 0x904])]
+    for (wseed, bits, nb) in wls:
+        if out.full(): break
+        # baseline (fault never fires) to learn how many eligible calls the workload makes
+        d = c.scratch('fb'); j = os.path.join(d, 'journal')
+        p = c.sh([exe, 'record', str(wseed), os.path.join(d, 'db'), j, str(bits), str(nb), '1'], timeout=120, env=dict(FAULT_K=10 ** 9, FAULT_PERSIST=0, FAULT_ERRNO=ENOSPC))
+        if p.returncode != 0:
+            raise Broken('fault baseline failed rc=%s %s' % (p.returncode, p.stderr[-300:]))
+        n = 0
+        for text in marks_of(j):
+            if text.startswith('count '): n = int(text.split(' ')[1])
+        c.rmtree(d)
+        if n <= 0: raise Broken('no eligible calls counted')
+        step = 5 if tier == 'quick' else 1
+        jobs = []
+        for k in range(1, n + 1, step):
+            variants = [(0, ENOSPC), (1, ENOSPC)] if tier == 'quick' else [(0, ENOSPC), (1, ENOSPC), (0, EIO), (1, EIO)]
+            for vi, (persist, err) in enumerate(variants):
+                jobs.append((k, persist, err, (k + vi) % 2))
+        results = c.pmap(lambda jb: fault_run(exe, wseed, bits, nb, jb[3], jb[0], jb[1], jb[2]), jobs, c.NCPU)
+        total['workloads'] += 1; total['sites'] += len(range(1, n + 1, step)); total['runs'] += len(jobs)
+        lines = None; allev = []
+        for r in results:
+            if 'fail' in r:
+                # reproduce once before reporting
+                i = r['info']
+                r2 = fault_run(exe, wseed, bits, nb, i['endmode'], i['k'], i['persist'], i['errno'])
+                if 'fail' in r2:
+                    rd = c.replay_dir(prop, 'fault')
+                    json.dump(dict(kind='fault', workload=dict(seed=wseed, bits=bits, nb=nb), site=i, why=r['fail']), open(os.path.join(rd, 'replay.json'), 'w'), indent=1)
+                    out.violation('faulted execution %s: %s (seed=%d bits=%#x)' % (r['fail'], i, wseed, bits), rd, dict(kind='fault_exec', why=r['fail'].split(' ')[0]))
+                continue
+            if r['fired']: total['fired'] += 1
+            if lines is None:
+                nbm = max(r['batches']) if r['batches'] else 0
+                bat = [dict(sync=r['batches'].get(b, {}).get('sync', 0), ops=r['batches'].get(b, {}).get('ops', [])) for b in range(1, nb + 1)]
+                lines = [dict(e='meta', batches=bat)]
+            allev.append(r['events'])
+        if lines is None: continue
+        # all executions of one workload share the batch table: validate them in a few TLC runs
+        chunks = [allev[i::4] for i in range(4)]
+
+        def tv(chunk):
+            td = c.scratch('ftv'); tp = os.path.join(td, 't.ndjson')
+            with open(tp, 'w') as f:
+                f.write(json.dumps(lines[0], separators=(',', ':')) + '\n')
+                for evs in chunk:
+                    for e in evs: f.write(json.dumps(e, separators=(',', ':')) + '\n')
+            r = c.trace_validate('FaultTrace', 'FaultTrace.cfg', tp, timeout=1200, heap='4g', header_lines=1)
+            return r, tp, chunk
+        for r, tp, chunk in c.pmap(tv, [ch for ch in chunks if ch], 4):
+            total['tv_states'] += r['res'].distinct; total['tv_transitions'] += r['res'].generated
+            if not r['accepted'] and not out.full():
+                flat = [e for evs in chunk for e in evs]
+                idx = (r['prefix'] or 1) - 1
+                bad = flat[idx] if idx < len(flat) else None
+                # find the execution (last Reset before idx)
+                site = None
+                for e in flat[:idx + 1]:
+                    if e['e'] == 'Reset': site = e
+                fault = None
+                for e in flat[:idx + 1]:
+                    if e['e'] == 'Reset': fault = None
+                    if e['e'] == 'fault': fault = e
+                # reproduce that single site
+                r2 = fault_run(exe, wseed, bits, nb, site['endmode'], site['k'], site['persist'], site['errno'])
+                rep = False
+                if 'events' in r2:
+                    rr, tp2, _ = tv([r2['events']])
+                    rep = not rr['accepted']
+                elif 'fail' in r2:
+                    rep = True
+                if not rep:
+                    raise Broken('FaultTrace rejection did not repeat for site %s' % site)
+                rd = c.replay_dir(prop, 'fault')
+                shutil.copy(tp, os.path.join(rd, 'trace.ndjson'))
+                json.dump(dict(kind='fault', workload=dict(seed=wseed, bits=bits, nb=nb), site=site, violated=r['violated'], event=bad, fault=fault,
+                               tlc_tail=r['res'].out[-2000:]), open(os.path.join(rd, 'replay.json'), 'w'), indent=1)
+                fd = (fault or {}).get('desc', '')
+                shape = dict(kind='fault', violated=r['violated'], persist=site['persist'], call=fd.split(' ')[0] if fd else None,
+                             file=('log' if '.log' in fd else 'other') if fd else None)
+                out.violation('FaultTrace %s: site %s fault=%s event=%s' % (r['violated'], site, fd, json.dumps(bad)[:200]), rd, shape)
+        if len(samples) < 2 and allev:
+            samples.append(dict(workload=dict(seed=wseed, optbits=bits, batches=nb, eligible_calls=n), execution_excerpt=allev[len(allev) // 2][:14]))
+    rc = out.finish()
+    cov = dict(evaluations=total['runs'], distinct_nontrivial=total['fired'],
+               rule='one execution per (failure site k, one-shot|persistent, errno, close|kill); non-trivial = the injected failure actually fired before the workload ended',
+               samples=samples or [{}], states=total['tv_states'], transitions=total['tv_transitions'], traces_validated_against_impl=total['runs'], totals=total,
+               invariants=['FaultOpenOk', 'FaultAckedSurvive', 'FaultNothingElse', 'FaultAtomic', 'FaultReadsCorrect'], exhaustive=False)
+    c.write_evidence(prop, tier, seed, 'model_checking', cov, time.time() - t0, violations=len(out.violations),
+                     assumptions=['failures are injected at the libc boundary for paths under the database directory (open, write, fsync, rename, unlink, close, mkdir/link, read/pread/mmap)',
+                                  'a failed write may or may not be present after reopen; every write acknowledged with OK must be'])
+    return rc
+
+
+CHECKS['C12'] = lambda tier, seed: run_fault(tier, seed)
